@@ -2,8 +2,9 @@
 from props import C19
 from props.common_prog import judge_prog
 
-THEOREM_MODULES = ["Hcl.Theorems.C01", "Hcl.Tie.Fixed"]
-THEOREMS = {"Hcl.Tie.Fixed": ["Tie.Fixed.fixedFunctions"], "Hcl.Theorems.C01": ["C01_accepted", "Program_new_valid", "assignmentsToActions_valid", "C01_settlement", "C01_stable", "settled_unique", "C01_order_independent",
+THEOREM_MODULES = ["Hcl.Theorems.C01", "Hcl.Tie.Fixed", "Hcl.Tie.PinsRefs"]
+THEOREMS = {"Hcl.Tie.PinsRefs": ["Tie.PinsRefs.pinApplyToAll", "Tie.PinsRefs.pinApplyToAllMut", "Tie.PinsRefs.pinReferencedWires", "Tie.PinsRefs.pinFindReferences"],
+            "Hcl.Tie.Fixed": ["Tie.Fixed.fixedFunctions"], "Hcl.Theorems.C01": ["C01_accepted", "Program_new_valid", "assignmentsToActions_valid", "C01_settlement", "C01_stable", "settled_unique", "C01_order_independent",
                                  "settled_pure", "defn_local", "ev_congr"]}
 
 RULE = ("S-PROG: random DAG-shaped programs (1-25 wires over all operators, statements shuffled, 0-3 register banks, "
